@@ -210,6 +210,9 @@ def register(M):
         for opn in ('add', 'sub', 'mul'):
             regp('core::num::%s::saturating_%s' % (t, opn), sat(opn))
             regp('%s::saturating_%s' % (t, opn), sat(opn))
+    for opn in ('add', 'sub', 'mul'):
+        regp('core::num::saturating_%s' % opn, sat(opn))      # `core::num::<impl isize>::saturating_add`
+        regp('num::saturating_%s' % opn, sat(opn))
 
     def checked(op):
         def h(m, a, k):
@@ -235,6 +238,9 @@ def register(M):
         for opn in ('add', 'sub', 'mul', 'div', 'rem'):
             regp('core::num::%s::checked_%s' % (t, opn), checked(opn))
             regp('%s::checked_%s' % (t, opn), checked(opn))
+    for opn in ('add', 'sub', 'mul', 'div', 'rem'):
+        regp('core::num::checked_%s' % opn, checked(opn))
+        regp('num::checked_%s' % opn, checked(opn))
 
     def minmax(which):
         def h(m, a, k):
@@ -945,6 +951,48 @@ def register(M):
             return m.call_fn(n, [seq_iter(items)])
         raise NotEncodable('collect into ' + target)
 
+    def it_partition(m, a, k):
+        yes, no = [], []
+        for x in consume(m, a[0]):
+            (yes if truth(m, call_closure(m, a[1], [Ref(Cell(x))]), 'partition') else no).append(x)
+        ga = m.generic_args(k)
+        th = type_head(ga[0]) if ga else 'Vec'
+        def build(items):
+            if th == 'Vec':
+                return Adt('Vec', 0, items)
+            n = next((nm for (t2, tr, mm), nm in m.p.impls.items() if t2 == th and mm == 'from_iter'), None)
+            if n is None:
+                raise NotEncodable('partition into ' + th)
+            return m.call_fn(n, [seq_iter(items)])
+        return Adt('(tuple)', 0, (build(yes), build(no)))
+
+    def it_minmax(which):
+        def h(m, a, k):
+            items = list(consume(m, a[0]))
+            if not items:
+                return NONE
+            byref = isinstance(m.ctx.resolve(items[0]), Ref)
+            best = val(m, items[0])
+            for x in items[1:]:
+                xv = val(m, x)
+                if not is_sym(best) and not is_sym(xv):
+                    # std: min returns the first minimum, max the last maximum
+                    if which == 'min':
+                        best = xv if xv < best else best
+                    else:
+                        best = xv if xv >= best else best
+                else:
+                    zb, zx = to_bv(best, 64), to_bv(xv, 64)
+                    best = z3.If(zx < zb, zx, zb) if which == 'min' else z3.If(zx >= zb, zx, zb)
+            return some(Ref(Cell(best)) if byref else best)
+        return h
+
+    def it_sum(m, a, k):
+        acc = 0
+        for x in consume(m, a[0]):
+            acc = m.binop('Add', acc, val(m, x), 'isize')
+        return acc
+
     def it_eq(m, a, k):
         xs = list(consume(m, a[0]))
         ys = drain_all(m, into_iter_value(m, a[1]))
@@ -966,6 +1014,10 @@ def register(M):
         reg(t, 'Iterator', 'fold', it_fold)
         reg(t, 'Iterator', 'collect', it_collect)
         reg(t, 'Iterator', 'eq', it_eq)
+        reg(t, 'Iterator', 'partition', it_partition)
+        reg(t, 'Iterator', 'min', it_minmax('min'))
+        reg(t, 'Iterator', 'max', it_minmax('max'))
+        reg(t, 'Iterator', 'sum', it_sum)
 
     def peek(m, a, k):
         r, itv = it_of(m, a[0])
@@ -1012,7 +1064,15 @@ def register(M):
         reg(t, 'FnOnce', 'call_once', fn_call)
 
     # ---- misc ----------------------------------------------------------------------------------
-    reg('*', 'Borrow', 'borrow', lambda m, a, k: a[0])
+    def borrow_generic(m, a, k):
+        # <T as Borrow<X>>::borrow(&T): T = X gives the argument back; T = &X (or &&X) peels one level
+        r = m.ctx.resolve(a[0])
+        if isinstance(r, Ref):
+            v = m.ctx.resolve(load(r, m.ctx.resolve))
+            if isinstance(v, Ref):
+                return v
+        return a[0]
+    reg('*', 'Borrow', 'borrow', borrow_generic)
     reg('*', 'BorrowMut', 'borrow_mut', lambda m, a, k: a[0])
     regp('PhantomData', lambda m, a, k: UNIT)
     reg('AtomicUsize', None, 'fetch_add', lambda m, a, k: atomic_fetch_add(m, a))
